@@ -464,6 +464,8 @@ struct G<'a> {
     scoped: bool,
     all_vars: Vec<String>,
     scope: Vec<String>,
+    /// all state ids (for In() in content and marks)
+    ids: Vec<String>,
     budget_var: usize,
 }
 
@@ -586,6 +588,12 @@ impl<'a> G<'a> {
             let v = self.rng.pick(&self.vars).clone();
             args.push(Expr::Var(v));
         }
+        // In() evaluated inside content: the state being entered is already active in its own onentry, the state
+        // being exited still is in its own onexit
+        if self.p.event_fields > 0 && !self.ids.is_empty() && self.rng.chance(1, 3) {
+            let id = self.rng.pick(&self.ids).clone();
+            args.push(Expr::In(id));
+        }
         Exec::Mark(tag, args)
     }
 
@@ -680,6 +688,13 @@ impl<'a> G<'a> {
                         for _ in 0..narms {
                             let c = if self.pm(self.p.errors) {
                                 self.bad_expr()
+                            } else if self.p.event_fields > 0 && !self.ids.is_empty() && self.rng.chance(1, 3) {
+                                let id = self.rng.pick(&self.ids).clone();
+                                if self.rng.chance(1, 3) {
+                                    Expr::Not(Box::new(Expr::In(id)))
+                                } else {
+                                    Expr::In(id)
+                                }
                             } else if !self.vars.is_empty() {
                                 Expr::Lt(Box::new(Expr::Var(self.rng.pick(&self.vars).clone())), Box::new(Expr::Int(self.rng.below(4) as i64)))
                             } else {
@@ -967,7 +982,7 @@ pub fn all_state_ids(n: &Node, out: &mut Vec<String>, include_history: bool) {
 /// Generate a conformant document. Legality of target sets (multi-targets, history defaults) is
 /// enforced by `crate::refsm::Model::validate`, the caller retries on rejection.
 pub fn generate(rng: &mut Rng, p: &Profile, name: &str) -> Doc {
-    let mut g = G { rng, p: p.clone(), n: 0, tcount: 0, mcount: 0, vars: vec![], budget_var: 0, scoped: p.dm == Dm::Ecma && p.late, all_vars: vec![], scope: vec![] };
+    let mut g = G { rng, p: p.clone(), n: 0, tcount: 0, mcount: 0, vars: vec![], budget_var: 0, scoped: p.dm == Dm::Ecma && p.late, all_vars: vec![], scope: vec![], ids: vec![] };
     let mut root = g.tree(String::new(), 0, None);
     if root.children.iter().filter(|c| c.kind != Kind::Final).count() == 0 {
         let id = g.fresh_id();
@@ -984,6 +999,7 @@ pub fn generate(rng: &mut Rng, p: &Profile, name: &str) -> Doc {
     assign_state_data(&mut g, &mut root, 0);
     let mut ids = Vec::new();
     all_state_ids(&root, &mut ids, true);
+    g.ids = ids.iter().filter(|i| !i.starts_with('h')).cloned().collect();
     g.decorate(&mut root, &ids, &[], 0);
     // data declarations: top level (early: with values; late: top-level without values, see DESIGN 4.1)
     let late = p.late;
